@@ -368,12 +368,20 @@ AnyNormTypeVarLike = Union[NormTV, NormTVTuple, NormParamSpec]
 
 
 class NormTypeAlias(BaseNormType):
-    __slots__ = ("_args", "_norm_type_vars", "_type_alias")
+    __slots__ = ("_args", "_norm_type_vars", "_source", "_type_alias")
 
-    def __init__(self, type_alias, args: VarTuple[BaseNormType], type_vars: VarTuple[AnyNormTypeVarLike]):
+    def __init__(
+        self,
+        type_alias,
+        args: VarTuple[BaseNormType],
+        type_vars: VarTuple[AnyNormTypeVarLike],
+        *,
+        source: Optional[TypeHint] = None,
+    ):
         self._type_alias = type_alias
         self._args = args
         self._type_vars = type_vars
+        self._source = type_alias if source is None else source  # parametrized alias keeps its arguments
 
     @property
     def origin(self) -> Any:
@@ -385,7 +393,7 @@ class NormTypeAlias(BaseNormType):
 
     @property
     def source(self) -> TypeHint:
-        return self._type_alias
+        return self._source
 
     @property
     def value(self):
@@ -665,6 +673,7 @@ class TypeNormalizer:
                 origin,
                 self._norm_iter(args),
                 self._norm_iter(tp.__type_params__),
+                source=tp,
             )
 
     @_aspect_storage.add
